@@ -280,6 +280,20 @@ class ExpressionError(LanguageError):
     """
 
 
+class UnknownExpressionType(ExpressionError, LookupError):
+    """The prefix of an expression names no expression type.
+
+    This is also a ``LookupError`` (which is what used to be raised).
+    """
+
+
+class UndefinedNamespacePrefix(ParseError, KeyError):
+    """The prefix of an attribute name is not bound to a namespace.
+
+    This is also a ``KeyError`` (which is what used to be raised).
+    """
+
+
 class ExceptionFormatter:
     def __init__(
         self,
